@@ -374,6 +374,11 @@ func PublishContext[T any](bus *EventBus, ctx context.Context, event T) {
 
 		// For once handlers, use CompareAndSwap to ensure atomic execution
 		if h.once {
+			// A publish whose context is already cancelled skips the handler;
+			// it must not use the once handler up.
+			if ctx.Err() != nil {
+				continue
+			}
 			if !atomic.CompareAndSwapUint32(&h.executed, 0, 1) {
 				continue // Already executed
 			}
